@@ -898,8 +898,20 @@ impl Format for ast::Expr {
                 })
             },
             ast::Expr::UnOp(op, x) => match op.value {
-                | token![unop -] | token![!] | token![~]
-                    => out.fmt_optional_parens(|out| out.fmt((op, x))),
+                | token![unop -] | token![!] | token![~] => {
+                    // An operand whose text begins with a sign must be parenthesized, or else the two would
+                    // fuse into a different token or an unparseable sequence (`--1`, `---x`, `~-1`).
+                    let begins_with_sign = match &x.value {
+                        ast::Expr::LitInt { value, format } => *value < 0 && format.signed,
+                        ast::Expr::LitFloat { value } => value.is_sign_negative() && !value.is_nan(),
+                        ast::Expr::XcrementOp { order: ast::XcrementOpOrder::Pre, .. } => true,
+                        _ => false,
+                    };
+                    out.fmt_optional_parens(|out| match begins_with_sign {
+                        true => out.fmt((op, "(", x, ")")),
+                        false => out.fmt((op, x)),
+                    })
+                },
 
                 | token![unop $] | token![unop %]
                 | token![unop int] | token![unop float]
